@@ -62,6 +62,12 @@ func (f *Frame) heapWF(name, h, alloc string) {
 			ks := strings.Split(name, "|")[1]
 			f.ctx.Fact(fmt.Sprintf("(forall ((m Ptr) (k %s)) (! (or (= (select (select %s m) k) nil) (< (pobj (select (select %s m) k)) %s)) :pattern ((select (select %s m) k))))", ks, h, h, alloc, h))
 		}
+		// slice-valued maps: the backing array of every stored slice is allocated
+		if strings.HasPrefix(name, "Mval|") && strings.HasSuffix(name, "|Slice") {
+			ks := strings.Split(name, "|")[1]
+			v := fmt.Sprintf("(select (select %s m) k)", h)
+			f.ctx.Fact(fmt.Sprintf("(forall ((m Ptr) (k %s)) (! (and (or (= (sbase %s) nil) (< (pobj (sbase %s)) %s)) (<= 0 (soff %s)) (<= 0 (slen_ %s)) (<= (slen_ %s) (scap %s)) (=> (= (sbase %s) nil) (= %s nilslice)) (or (= (sbase %s) nil) (not (ismapobj (pobj (sbase %s)))))) :pattern (%s)))", ks, v, v, alloc, v, v, v, v, v, v, v, v, v))
+		}
 	}
 }
 
@@ -104,6 +110,7 @@ type Frame struct {
 	// monitor model (lock.go)
 	lockSnaps    map[string]*State
 	lastLockSnap *State
+	callSnaps    map[string]*State // state before call sites carrying asserts (atcall)
 	lastLockReach string
 	csCount   map[string]int
 	noopFuncs map[string]bool
@@ -1052,7 +1059,11 @@ func (f *Frame) frameFact1(k, hb, ha, alloc, guard string, modObjs []string) {
 		ex = append(ex, fmt.Sprintf("(not (= (pobj p) %s))", m))
 	}
 	cond = And(append([]string{"(not (= p nil))", cond}, ex...)...)
-	f.ctx.Fact(Implies(guard, fmt.Sprintf("(forall ((p Ptr)) (! (=> %s (= (select %s p) (select %s p))) :pattern ((select %s p))))", cond, ha, hb, ha)))
+	pats := fmt.Sprintf(":pattern ((select %s p))", ha)
+	if top := f.top; top != nil && top.contract != nil && top.contract.ForwardTerms {
+		pats += fmt.Sprintf(" :pattern ((select %s p))", hb)
+	}
+	f.ctx.Fact(Implies(guard, fmt.Sprintf("(forall ((p Ptr)) (! (=> %s (= (select %s p) (select %s p))) %s))", cond, ha, hb, pats)))
 	if k == "H_uint8" {
 		scond := fmt.Sprintf("(< (pobj (sbase s)) %s)", alloc)
 		var sex []string
